@@ -49,7 +49,7 @@ if os.path.exists(reg):
 out.append("## 3. Sensitivity: positive controls and reverted fixes\n")
 out.append("* C05 has a control that needs no source edit: with the context flag `SEXP_G_NO_TAIL_CALLS_P` set (plan knob `no_tail_calls`) every tail loop is reported.\n"
            "* Every `fix:` commit's finding has its replay under `findings/<id>/`; `python3 verif.py replay <file>` on the repaired tree prints `not reproduced`, "
-           "and on a tree with the commit reverted reproduces the recorded class (done for F2, F27, F28, F31, F38 while they were being repaired: the check "
+           "and on a tree with the commit reverted reproduces the recorded class (done for F2, F27, F28, F31, F38, F43-F46 while they were being repaired -- e.g. with fbefefe reverted the C01 quick check reports `crash:Segmentation-fault` from a `tower` form within its default budget: the check "
            "was always run against the unrepaired tree first and had to report the violation before the fix went in).\n")
 k = json.load(open("/verif/known_findings.json"))
 fixed = [f for f in k["findings"] if f["status"] == "fixed"]
